@@ -671,6 +671,11 @@ fn run_tier<C: Check>(check: &C, tier: Tier) -> i32 {
     let next = AtomicU64::new(0);
     let harness_error: Mutex<Option<String>> = Mutex::new(None);
     let abort = AtomicBool::new(false);
+    // once thousands of violation events were seen the verdict is settled: stop exploring (a failing tree can
+    // make every run expensive, e.g. an operation that only stops at the draw cap)
+    let viol_events = AtomicU64::new(0);
+    let runs_done = AtomicU64::new(0);
+    const STOP_AFTER_VIOLATION_EVENTS: u64 = 3000;
     let outs: Mutex<Vec<WorkerOut<C::Scenario>>> = Mutex::new(Vec::new());
     let chunk: u64 = check.chunk().max(1);
     // heartbeat per worker: (run index + 1, start in ms since t0); 0 = idle
@@ -699,6 +704,8 @@ fn run_tier<C: Check>(check: &C, tier: Tier) -> i32 {
             let abort = &abort;
             let harness_error = &harness_error;
             let outs = &outs;
+            let viol_events = &viol_events;
+            let runs_done = &runs_done;
             s.spawn(move || {
                 let mut w = WorkerOut::<C::Scenario> {
                     obs: Obs::default(),
@@ -711,7 +718,7 @@ fn run_tier<C: Check>(check: &C, tier: Tier) -> i32 {
                 let mut my_chunks: Vec<u64> = Vec::new();
                 'outer: loop {
                     let start = next.fetch_add(chunk, Ordering::Relaxed);
-                    if start >= total || abort.load(Ordering::Relaxed) {
+                    if start >= total || abort.load(Ordering::Relaxed) || viol_events.load(Ordering::Relaxed) > STOP_AFTER_VIOLATION_EVENTS {
                         break;
                     }
                     my_chunks.push(start);
@@ -748,6 +755,10 @@ fn run_tier<C: Check>(check: &C, tier: Tier) -> i32 {
                                             }
                                         }
                                     }
+                                }
+                                runs_done.fetch_add(1, Ordering::Relaxed);
+                                if !vs.is_empty() {
+                                    viol_events.fetch_add(vs.len() as u64, Ordering::Relaxed);
                                 }
                                 for v in vs {
                                     w.violations_total += 1;
@@ -1013,7 +1024,11 @@ fn run_tier<C: Check>(check: &C, tier: Tier) -> i32 {
     if !check.leg().is_empty() {
         coverage.insert("leg".into(), json!(check.leg()));
     }
-    coverage.insert("evaluations".into(), json!(total));
+    let executed = runs_done.load(Ordering::Relaxed);
+    coverage.insert("evaluations".into(), json!(executed));
+    if executed < total {
+        coverage.insert("stopped_early".into(), json!(format!("{executed} of {total} planned runs were executed: exploration stops once more than {STOP_AFTER_VIOLATION_EVENTS} violation events were seen")));
+    }
     coverage.insert("distinct_nontrivial".into(), json!(distinct));
     coverage.insert("nontrivial_runs".into(), json!(nontrivial));
     coverage.insert("rule".into(), json!(rule));
@@ -1265,6 +1280,11 @@ fn quiet_execute<C: Check>(check: &C, sc: &C::Scenario) -> Vec<Violation> {
 }
 
 fn minimise<C: Check>(check: &C, sc: &C::Scenario, v: &Violation) -> (C::Scenario, Violation, u64) {
+    // overall budget across all findings of one invocation (later findings are reported as found)
+    static SPENT_MS: AtomicU64 = AtomicU64::new(0);
+    if SPENT_MS.load(Ordering::Relaxed) > 60_000 {
+        return (sc.clone(), v.clone(), 0);
+    }
     let t0 = Instant::now();
     let mut cur = sc.clone();
     let mut cur_v = v.clone();
@@ -1273,7 +1293,7 @@ fn minimise<C: Check>(check: &C, sc: &C::Scenario, v: &Violation) -> (C::Scenari
     'outer: loop {
         let cands = check.shrink(&cur);
         for cand in cands {
-            if evals >= 3000 || t0.elapsed().as_secs() >= 30 {
+            if evals >= 3000 || t0.elapsed().as_secs() >= 15 {
                 break 'outer;
             }
             evals += 1;
@@ -1287,6 +1307,7 @@ fn minimise<C: Check>(check: &C, sc: &C::Scenario, v: &Violation) -> (C::Scenari
         }
         break;
     }
+    SPENT_MS.fetch_add(t0.elapsed().as_millis() as u64, Ordering::Relaxed);
     (cur, cur_v, steps)
 }
 
